@@ -41,6 +41,8 @@ def app_class(ctx: Ctx, tag: int) -> Optional[ClassInfo]:
     return None
 
 
+DECODE_HOOKS = ("from_bytes", "decode", "decode_raw", "validate", "value", "pyvalue", "pythonize")
+
 # numeric kinds for the tick conversion
 INT, TD, FLOAT, TRUNC, ROUNDED, OTHER = "int", "timedelta", "inexact-float", "truncated-float", "rounded", "other"
 
@@ -141,7 +143,7 @@ def run(ctx: Ctx, rep: Report) -> None:
     rep.rule("C17-R1", "Counter32 / Counter64 constructors: negative -> 0, otherwise v mod 2^bits (boundary evaluation of the constructor CFG)", floor=20)
     rep.rule("C17-R2", "TimeTicks <-> timedelta at 100 ticks per second with no truncation of an inexact float", floor=4)
     rep.rule("C17-R3", "IpAddress: 4 octets, same byte order in both directions", floor=3)
-    rep.rule("C17-R4", "application types: RFC 2578 tags, unsigned decode", floor=6)
+    rep.rule("C17-R4", "application types: RFC 2578 tags, unsigned decode on every decode hook", floor=10)
     rep.assumptions += [
         "x690.types.Integer encodes/decodes arbitrary Python integers (its codec over full ranges is not analysed here)",
         "timedelta(seconds=n/100.0) is exact for n < 2**32: the float error (< 5e-9 s) is far below the half microsecond to which timedelta rounds",
@@ -321,5 +323,27 @@ def run(ctx: Ctx, rep: Report) -> None:
             dr = ctx.r.method(cls, "decode_raw")
             uses = dr is not None and any(isinstance(n, ast.keyword) and n.arg == "signed" and norm(n.value) == "cls.SIGNED" for n in ast.walk(dr.node))
             rep.check(ctx.r.is_subclass(cls, integer) and signed is False and uses, "C17-R4", site, f"{name} (tag {tag}) is an Integer decoded with signed=cls.SIGNED and SIGNED is False", f"SIGNED={signed!r} decode_raw={dr.key if dr else None}", key=f"{cls.key}|unsigned-decode")
+            # every decode hook x690 dispatches to (resolved along the MRO) that the repository overrides must
+            # reach decode_raw through cls / self / super(): naming another class reads the octets with that
+            # class's signedness
+            foreign = []
+            for hook in DECODE_HOOKS:
+                m = ctx.r.method(cls, hook)
+                if m is None or m.module.external:
+                    continue
+                for n in own_nodes(m.node):
+                    if isinstance(n, ast.Call) and isinstance(n.func, ast.Attribute) and n.func.attr in DECODE_HOOKS and isinstance(n.func.value, (ast.Name, ast.Attribute)):
+                        if isinstance(n.func.value, ast.Name) and n.func.value.id in ("cls", "self"):
+                            continue
+                        other = ctx.r.resolve_class(m.module, n.func.value)
+                        if other is None:
+                            continue
+                        try:
+                            osigned = ctx.r.class_const(other, "SIGNED")
+                        except NotConstant:
+                            osigned = None
+                        if osigned is not False:
+                            foreign.append(f"{m.qualname} line {n.lineno}: {norm(n.func)} (SIGNED={osigned!r})")
+            rep.check(not foreign, "C17-R4", site, f"{name}: the decode hooks overridden in the repository read the octets with the class's own signedness", "; ".join(foreign), key=f"{cls.key}|foreign-decode")
         else:
             rep.ok("C17-R4", site, f"{name} (tag {tag}) is registered", "")
